@@ -375,11 +375,14 @@ def run_translation(case):
                     evs = evs[max(1, n) :]
             delivered_batches = []
             for b in batches:
-                if emitter == "windows":
-                    em._read_events = lambda b=b: [w.WinAPINativeEvent(a, n) for a, n in b]
-                    em.queue_events(0)
-                else:
-                    em.queue_events(0, [mod.NativeEvent(p, ino, fl, 0) for p, ino, fl in b])
+                try:
+                    if emitter == "windows":
+                        em._read_events = lambda b=b: [w.WinAPINativeEvent(a, n) for a, n in b]
+                        em.queue_events(0)
+                    else:
+                        em.queue_events(0, [mod.NativeEvent(p, ino, fl, 0) for p, ino, fl in b])
+                except Exception as ex:  # noqa: BLE001 - the emitter thread would die with it
+                    raise Violation(f"{emitter} emitter recursive={rec}, burst {bi} {burst}: queue_events() raised {ex!r} on the native batch {b}", "emitter-raised:" + type(ex).__name__) from None
                 got = []
                 while True:
                     try:
@@ -474,12 +477,55 @@ def run_translation(case):
                         de = [e for e in delivered if isinstance(e, (wev.FileDeletedEvent, wev.DirDeletedEvent)) and e.src_path == sc.P(s)]
                         if not de:
                             raise Violation(f"{desc}: move out of the tree gave no deleted event for {s}; delivered {delivered}", "move-out-not-deleted")
+            if emitter == "windows":
+                # every MODIFIED record of an entry that still exists becomes a modified event of that entry's flavour
+                for b, got in delivered_batches:
+                    for a, n in b:
+                        if a == MODIFIED and os.path.lexists(os.path.join(root, n)):
+                            want = wev.DirModifiedEvent if os.path.isdir(os.path.join(root, n)) else wev.FileModifiedEvent
+                            if not any(type(e) is want and e.src_path == sc.P(n) for e in got):
+                                raise Violation(f"{desc}: native MODIFIED({n}) gave no {want.__name__}({n}); delivered for that batch: {got}", "modified-missing")
             if not rec:
                 # an event is out of scope if none of its paths is the root or a direct child (a direct child moved to a
                 # deeper place is still an event about that child)
                 deep = [e for e in delivered if all((norm(p) or "").count("/") >= 1 for p in (e.src_path, e.dest_path) if p)]
                 if deep:
                     raise Violation(f"{desc}: non-recursive {'FSEvents' if emitter == 'fsevents' else 'Windows'} watch reported {deep[:3]} below the root's direct children", "nonrecursive-deep-event")
+        if emitter == "windows" and case.get("root_deleted"):
+            # the watched directory itself goes away: ReadDirectoryChangesW fails, the handle's final path is no longer the
+            # watched path, the library encodes one 'removed self' record: one DirDeletedEvent(root), emitter stopped
+            import ctypes  # noqa: F401
+
+            def failed(*a):
+                e = OSError("access denied")
+                e.winerror = 5
+                raise e
+
+            def final_path(handle, pbuf, size, flags):
+                pbuf.value = "\\Device\\elsewhere"
+
+            saved = (w.ReadDirectoryChangesW, w.GetFinalPathNameByHandleW, w.CancelIoEx, w.CloseHandle)
+            w.ReadDirectoryChangesW, w.GetFinalPathNameByHandleW = failed, final_path
+            w.CancelIoEx = w.CloseHandle = lambda *a: None
+            try:
+                del em._read_events  # the real method: winapi.read_events(handle, path, recursive)
+                try:
+                    em.queue_events(0)
+                except Exception as ex:  # noqa: BLE001
+                    raise Violation(f"windows emitter recursive={rec}: queue_events() raised {ex!r} when the watched directory was deleted", "emitter-raised:" + type(ex).__name__) from None
+            finally:
+                w.ReadDirectoryChangesW, w.GetFinalPathNameByHandleW, w.CancelIoEx, w.CloseHandle = saved
+            got = []
+            while True:
+                try:
+                    got.append(q.get_nowait()[0])
+                except queue.Empty:
+                    break
+            if got != [wev.DirDeletedEvent(root)]:
+                raise Violation(f"windows emitter recursive={rec}: deletion of the watched directory delivered {got}, expected exactly one DirDeletedEvent of the root", "root-deleted")
+            if em.should_keep_running():
+                raise Violation(f"windows emitter recursive={rec}: the emitter did not stop after its watched directory was deleted", "root-deleted-not-stopped")
+            info_cl.add("root-deleted")
         return nontrivial, sorted(info_cl) + [f"emitter:{emitter}", "recursive" if rec else "non-recursive"]
     finally:
         sc.close()
@@ -559,6 +605,8 @@ def trans_cases(draw, tier):
     opts["exclude"] = lambda op, m, pc: op[0] == "replace"
     h = draw(fsops.histories(opts))
     case = {"emitter": emitter, "recursive": draw(st.sampled_from([True, True, False])), "init": h["init"], "bursts": h["bursts"]}
+    if emitter == "windows":
+        case["root_deleted"] = draw(st.integers(0, 3)) == 0
     if emitter == "fsevents":
         case["bytes"] = draw(st.sampled_from([False, False, True]))
         case["coalesce"] = draw(st.booleans())
@@ -606,7 +654,7 @@ def run_shard(spec):
                     k += 1
                     if k % NSH != i:
                         continue
-                    case = {"emitter": emitter, "recursive": rec, "init": init, "bursts": bursts, "coalesce": emitter == "fsevents" and k % 3 == 0, "cuts": []}
+                    case = {"emitter": emitter, "recursive": rec, "init": init, "bursts": bursts, "coalesce": emitter == "fsevents" and k % 3 == 0, "cuts": [], "root_deleted": emitter == "windows" and k % 5 == 0}
                     if excluded_by(case, known):
                         st_.excluded += 1
                         continue
